@@ -123,7 +123,7 @@ Print Assumptions c11_penetrance_complete.
      both clusters have at least n_cells_min cells, its (restricted) Holm-corrected p-value
      is below p_th, it belongs to the gene list, and it is on or above every floor
      (strictly above every strict threshold when exact penetrance is requested).
-   Hypotheses: the margin (F8), q1_min_th > -1 (genes outside the list get q1 = -1) and
+   The hypotheses: the margin (F8), q1_min_th > -1 (genes outside the list get q1 = -1) and
    q1_th > q1_min_th (enforced by the code in the approximate mode). *)
 Theorem c11_sound : forall st mask x v up g,
   margin (st_S st) (st_th st) ->
